@@ -136,6 +136,19 @@ def run_history(m, scratch, config, budget, ops, tag):
         if r is None:
             continue
         recs.append(r)
+    # listings with a limit: exactly min(limit, live entries) entries of the function, whatever else (custom metadata ...)
+    # lives next to them
+    d.limited_listing_problems = []
+    if not any(r["exc"] for r in recs):
+        try:
+            for fname in BD.KEY_FNS:
+                full = len(d.b.list_mementos(d.frefs[fname]))
+                for k in (1, 2, 3):
+                    got = len(d.b.list_mementos(d.frefs[fname], limit=k))
+                    if got != min(k, full):
+                        d.limited_listing_problems.append("list_mementos(%s, limit=%d) returned %d entries; %d are live" % (fname, k, got, full))
+        except Exception as e:
+            d.limited_listing_problems.append("list_mementos with a limit raised %s: %s" % (type(e).__name__, str(e)[:100]))
     import shutil
     shutil.rmtree(d.root, ignore_errors=True)
     return d, recs
@@ -159,6 +172,10 @@ def evaluate(m, scratch, config, budget, oplists, tagbase, dict_only=False):
     for i, ops in enumerate(oplists):
         d, recs = run_history(m, scratch, config, budget, ops, "%s%d" % (tagbase, i))
         exc = next((j for j, r in enumerate(recs) if r["exc"]), None)
+        if exc is None and d.limited_listing_problems:
+            out.append([("limited-listing", len(recs) - 1, d.limited_listing_problems[0]), recs, d.nsz])
+            terms.append(case_term(config, budget, d.nsz, recs, dict_only))
+            continue
         if exc is not None:
             out.append([("exception", exc, recs[exc]["exc"]), recs, d.nsz])
             recs_for_model = recs[:exc]
